@@ -97,7 +97,7 @@ fn run_case(case: &Value, gates: &Gates) -> Value {
                                 IpcSelectionResult::MessageReceived(id, msg) => match msg.to::<Vec<u8>>() {
                                     Ok(d) => {
                                         let tag = if d.len() >= 8 { u64::from_le_bytes(d[..8].try_into().unwrap()) } else { 0 };
-                                        events.push(json!({"t": "msg", "id": id, "m": tag / 100, "x": tag % 100,
+                                        events.push(json!({"t": "msg", "id": id, "m": tag / 1000, "x": tag % 1000,
                                                            "intact": d == payload(tag, d.len())}));
                                     },
                                     Err(e) => events.push(json!({"t": "undecodable", "id": id, "detail": format!("{:?}", e)})),
